@@ -120,8 +120,10 @@ func specAddrSet(h *TracerouteHop) bool { return len(h.IPAddress) != 0 }
 //@ loop 1 invariant[ids]    0 <= i && i <= len(r.Traceroute.Runs) && forall(k, 0, i, r.Traceroute.Runs[k].RunID != "")
 
 // Normalize is the fixed pipeline of the five normalisation steps (each under its own contract below / above).
+// (C03, C04, C05 too: the normalisation pass is the last writer of the hop entries a user sees; its frame — and the frames
+// of the passes it calls — keep every hop's TTL, address, RTT and destination flag as the engines and ToHops produced them)
 //@ func (*Results).Normalize
-//@ safety C16
+//@ safety C16 C03 C04 C05
 //@ requires[pre.wf]         r != nil && forall(i, 0, len(r.Traceroute.Runs), len(r.Traceroute.Runs[i].Hops) >= 1 && forall(j, 0, len(r.Traceroute.Runs[i].Hops), r.Traceroute.Runs[i].Hops[j] != nil))
 //@ ensures[C16.norm.keeps]  r.Protocol == old(r.Protocol) && r.Destination.Hostname == old(r.Destination.Hostname) && r.Destination.Port == old(r.Destination.Port) && len(r.Traceroute.Runs) == old(len(r.Traceroute.Runs)) && len(r.E2eProbe.RTTs) == old(len(r.E2eProbe.RTTs))
 //@ ensures[C16.norm.steps]  ncalls("(*Results).normalizeTracerouteHops") == old(ncalls("(*Results).normalizeTracerouteHops")) + 1 && ncalls("(*Results).normalizeTracerouteHopsCount") == old(ncalls("(*Results).normalizeTracerouteHopsCount")) + 1 && ncalls("(*Results).normalizeE2eProbe") == old(ncalls("(*Results).normalizeE2eProbe")) + 1
